@@ -62,6 +62,8 @@ type CStep struct {
 	BadParams string `json:"bad_params,omitempty"`
 	// NoSpecs: a Batch without specs ("nil" slice or "empty" non-nil slice).
 	NoSpecs string `json:"no_specs,omitempty"`
+	// Lead (reply): insignificant white space the peer writes in front of the record.
+	Lead string `json:"lead,omitempty"`
 	// Relabel (call): once the call has returned a response, relabel it with the
 	// id of a request that is still pending (Response.SetID, as a proxy would).
 	Relabel bool `json:"relabel,omitempty"`
@@ -442,6 +444,7 @@ func (w *cworld) exec(i int, st CStep) {
 		if st.Array || len(parts) != 1 {
 			rec = "[" + rec + "]"
 		}
+		rec = st.Lead + rec
 		w.log(CEvent{Kind: "peer-queue", Data: rec})
 		w.peerQ <- []byte(rec)
 	case "raw":
